@@ -1,6 +1,7 @@
 package main
 
 import (
+	"regexp"
 	"encoding/json"
 	"flag"
 	"fmt"
@@ -42,6 +43,8 @@ func main() {
 		os.Exit(2)
 	}
 }
+
+var stripAlpha = regexp.MustCompile(`_[0-9]+\b`)
 
 func loadEnv() []string {
 	env := os.Environ()
@@ -172,7 +175,11 @@ func cmdVerify(args []string) {
 	for _, o := range vc.obls {
 		if o.Status != "proved" {
 			bad++
-			fmt.Printf("FAIL [%s] %s tags=%v site=%s solver=%s t=%.2fs %s\n", o.Status, o.Name, o.Tags, o.Site, o.Solver, o.Time, o.Failed)
+			txt := stripAlpha.ReplaceAllString(o.Text, "")
+			if len(txt) > 160 {
+				txt = txt[:160] + "..."
+			}
+			fmt.Printf("FAIL [%s] %s tags=%v site=%s solver=%s t=%.2fs %s  | %s\n", o.Status, o.Name, o.Tags, o.Site, o.Solver, o.Time, o.Failed, txt)
 			if *verbose {
 				for _, t := range o.Trail {
 					fmt.Println("      ", t)
